@@ -641,6 +641,61 @@ fn join_case(case: &JoinCase, obs: &mut Obs) -> PropResult {
 /// Dimension counts around every place where a counter of 8 or 16 bits would wrap: `[`^d + element, given to
 /// the three descriptor parsers (bare, as parameter and as return type) and to the name predicates;
 /// for accepted array class names `dimension()` must be d.
+/// Code points that share their low byte (or their low 16 bits) with a character of the descriptor alphabet: a parser that
+/// looks at a truncated code point takes U+0149 for `I`, U+014C for `L`, U+015B for `[` ... One string per code point and
+/// position: alone, as parameter, as return type, as array element, as the `L` of an object type, as its `;`.
+fn lookalike_code_points(ctx: &mut Ctx) {
+	let sub = "lookalike_code_points";
+	let by_value = |v: &serde_json::Value, obs: &mut Obs| -> PropResult { lookalike_case(v["cp"].as_u64().unwrap_or(0) as u32, obs) };
+	if ctx.in_replay() {
+		if let Some(v) = ctx.replay_case(sub) {
+			let mut obs = ctx.new_obs();
+			if let Err(e) = crate::engine::no_panic(|| by_value(&v, &mut obs)).and_then(|x| x) {
+				ctx.push_violation(sub, e);
+			}
+		}
+		return;
+	}
+	ctx.run_saved_values(sub, &by_value);
+	let tags: Vec<u32> = "BCDFIJSZLV[();/".chars().map(|c| c as u32).collect();
+	let thorough = ctx.tier.pick(0, 1) == 1;
+	ctx.run_enum(sub, |rec| {
+		// quick: every page up to U+2FFF, every 16th page of the rest; thorough: every page of the code space
+		for page in 1u32..=0x10FF {
+			if !thorough && page > 0x2F && page % 16 != 1 {
+				continue;
+			}
+			for t in &tags {
+				let cp = page << 8 | t;
+				if char::from_u32(cp).is_none() {
+					continue;
+				}
+				let mut obs = rec.obs();
+				let r = crate::engine::no_panic(|| lookalike_case(cp, &mut obs)).and_then(|x| x);
+				rec.case(|| json!({"cp": cp}), fnv64(format!("cp{cp}").as_bytes()), obs, r);
+				if rec.failed() {
+					return;
+				}
+			}
+		}
+	});
+}
+
+fn lookalike_case(cp: u32, obs: &mut Obs) -> PropResult {
+	let Some(c) = char::from_u32(cp) else { return Ok(()) };
+	for s in [format!("{c}"), format!("{c}a;"), format!("[{c}"), format!("[[{c}a;"), format!("La{c}"), format!("L{c};"), format!("[L{c}/b;")] {
+		check_field(&s, obs)?;
+		check_return(&s, obs)?;
+		check_names(&s, obs)?;
+	}
+	for s in [format!("({c})V"), format!("({c}a;)V"), format!("(){c}"), format!("(){c}a;"), format!("{c})V"), format!("(I{c}V"), format!("(I)V{c}"), format!("([{c})V"), format!("(La{c})V"), format!("(L{c};)L{c};")] {
+		check_method(&s, obs)?;
+	}
+	obs.label(format!("low_byte={:?}", (cp & 0xff) as u8 as char));
+	obs.nontrivial_if(true);
+	Ok(())
+}
+
 fn dimension_boundaries(ctx: &mut Ctx) {
 	let sub = "dimension_boundaries";
 	let by_value = |v: &serde_json::Value, obs: &mut Obs| -> PropResult { dimension_case(v["dims"].as_u64().unwrap_or(0) as usize, v["element"].as_str().unwrap_or(""), obs) };
@@ -776,6 +831,7 @@ pub fn run(ctx: &mut Ctx) {
 	enumerate(ctx, "names_exhaustive", NAME_ALPHABET, 5, check_names, |_| true);
 	enumerate(ctx, "names_over_descriptor_alphabet", DESC_ALPHABET, 4, check_names, |_| true);
 	dimension_boundaries(ctx);
+	lookalike_code_points(ctx);
 	ctx.run_enum("many_parameters", |rec| {
 		for n in [0usize, 1, 2, 126, 127, 128, 129, 253, 254, 255, 256, 257, 300, 1000, 65535] {
 			for element in ["I", "J", "D", "La;", "[I", "[[J", "Ljava/lang/Object;"] {
